@@ -1,3 +1,4 @@
+import Chartparse.Proofs.TrackProofs
 import Chartparse.Proofs.Hint
 import Chartparse.Proofs.ChainProofs
 /-! Property theorems of C11 (statements only; helper lemmas live in `Proofs/`). -/
@@ -95,5 +96,13 @@ theorem sorted_of_linked :
 example : (tsAt 100 [⟨0, 120, 0⟩, ⟨800, 60, 4000000⟩, ⟨1200, 90, 8000000⟩] 900 1).toOption =
     (tsAt 100 [⟨0, 120, 0⟩, ⟨800, 60, 4000000⟩, ⟨1200, 90, 8000000⟩] 900 0).toOption ∧
     (tsAt 100 [⟨0, 120, 0⟩, ⟨800, 60, 4000000⟩, ⟨1200, 90, 8000000⟩] 900 2).toOption = none := by decide +kernel
+
+/-- **C11 (notes)**: on a map with strictly increasing ticks, every note's stored start time and governing index are
+    those of the un-hinted query for its tick — whatever hints the builder threaded -/
+theorem C11_notes :
+    ∀ {res evs sps gs prev b s ns} (h : Inst.NotesOf res evs sps gs prev b s ns)
+    (hsorted : (evs.map (·.tick)).Pairwise (· < ·)),
+    ∀ n ∈ ns, tsAt res evs (n.tick : Int) 0 = .ok (n.ts, n.idx) :=
+  @Chartparse.Inst.notes_ts
 
 end Chartparse.Props.C11
